@@ -1,10 +1,356 @@
 import Driver.Common
-/-! Judge for C17: not built yet (stub so that the target exists). -/
-open Lean Driver
+import EgVerif.Spec.ConnCap
+/-! Judges for C17: `sem` (Semaphore alone), `listener` (LimitListener over real sockets),
+`mqtt` (Broker.maxAllowedConnection). Each replays the harness operations in the model,
+exploring every order of the asynchronous parts where the harness let them race, and
+evaluates the property on the implementation's observations. -/
+open Lean Driver EgVerif.ConnCap
 
 namespace Driver.C17
 
-def judges : List (String × Judge) := []
+def natList (j : Json) (k : String) : Except String (List Nat) := do
+  let a ← getArr j k
+  a.toList.mapM (·.getNat?)
+
+def intList (j : Json) (k : String) : Except String (List Int) := do
+  let a ← getArr j k
+  a.toList.mapM (·.getInt?)
+
+def insertSorted (x : Nat) : List Nat → List Nat
+  | [] => [x]
+  | y :: r => if x ≤ y then x :: y :: r else y :: insertSorted x r
+def sortN (l : List Nat) : List Nat := l.foldr insertSorted []
+
+structure Op where
+  op : String
+  k : Nat
+  n : Int
+  race : Bool
+
+def parseOp (j : Json) : Except String Op := do
+  pure { op := ← getStr j "op", k := (optInt j "k").toNat, n := optInt j "n", race := optBool j "race" }
+
+def dedup (l : List String) : List String := l.foldl (fun acc x => if acc.contains x then acc else acc ++ [x]) []
+
+/-! ## Semaphore / listener -/
+
+/-- judge-level schedule: model + pending asynchronous steps + listener bookkeeping -/
+structure LS where
+  s : Sched
+  backlog : Nat := 0     -- dialled, not yet accepted
+  nextAcc : Nat := 0     -- id of the acceptor's next Accept call
+  nextAcq : Nat := 0     -- sem harness: id of the next acquisition
+  sets : Nat := 0
+deriving DecidableEq
+
+def dedupL (l : List LS) : List LS := l.foldl (fun acc x => if acc.contains x then acc else acc ++ [x]) []
+
+/-- listener: while the acceptor holds a unit and a dialled connection waits, it accepts it and
+calls Accept again (an asynchronous acquire) -/
+def drive : Nat → LS → LS
+  | 0, x => x
+  | fuel + 1, x =>
+    match x.s.cap.inAccept with
+    | id :: _ =>
+      if x.backlog > 0 then
+        match step x.s.cap (.acceptDone id) with
+        | some c => drive fuel { x with s := ⟨c, x.s.async ++ [.acquire x.nextAcc]⟩, backlog := x.backlog - 1,
+                                        nextAcc := x.nextAcc + 1 }
+        | none => x
+      else x
+    | [] => x
+
+def fireL (listener : Bool) (x : LS) (i : Nat) : Option LS :=
+  match fire (!listener) x.s i with
+  | none => none
+  | some s' => some (if listener then drive 64 { x with s := s' } else { x with s := s' })
+
+def closureL (listener : Bool) : Nat → List LS → List LS
+  | 0, l => l
+  | fuel + 1, l =>
+    let next := l.flatMap (fun x => (List.range x.s.async.length).filterMap (fireL listener x))
+    if next.isEmpty then l else dedupL (l ++ closureL listener fuel (dedupL next))
+
+/-- apply the synchronous part of an operation to one candidate; `sk` = the harness skipped it -/
+def applyOp (listener : Bool) (x : LS) (o : Op) (sk : Bool) : Option LS :=
+  match o.op with
+  | "acq" =>
+    if sk then none else
+    some { x with s := ⟨x.s.cap, x.s.async ++ [.acquire x.nextAcq]⟩, nextAcq := x.nextAcq + 1 }
+  | "dial" =>
+    if sk then some x else some (drive 64 { x with backlog := x.backlog + 1 })
+  | "rel" | "close" =>
+    -- Semaphore harness: Release only for a granted, not yet released acquisition;
+    -- listener harness: Close on any accepted connection (a second Close is legal)
+    let known := x.s.cap.opened.contains o.k || (listener && x.s.cap.closed.contains o.k)
+    if sk then (if known then none else some x) else
+    if !known then none else
+    match step x.s.cap (.connClose o.k) with
+    | some c => some (if listener then drive 64 { x with s := ⟨c, x.s.async⟩ } else { x with s := ⟨acceptAll c, x.s.async⟩ })
+    | none => none
+  | "set" =>
+    if sk then some x else
+    match step x.s.cap (.setMax o.n) with
+    | some c => some { x with s := ⟨c, x.s.async ++ [.adjust x.sets]⟩, sets := x.sets + 1 }
+    | none => none
+  | _ => if sk then some x else none
+
+structure SnapObs where
+  after : Int
+  granted : List Nat      -- sem: granted ids; listener: [accepted count]
+  setDone : List Nat
+  openIdx : List Nat
+  cur : Int
+  waiters : List Int
+  skipped : List Nat
+  settled : Bool
+  maxOpen : Nat
+  inInner : Bool
+  adjParked : Nat
+
+def parseSnap (listener : Bool) (j : Json) : Except String SnapObs := do
+  let granted ← if listener then pure [(optInt j "accepted").toNat] else natList j "granted"
+  let setDone ← if listener then pure [] else natList j "setDone"
+  let openIdx ← if listener then natList j "open" else pure []
+  let waiters ← intList j "waiters"
+  let skipped ← natList j "skipped"
+  pure { after := optInt j "after" (-1), granted := granted, setDone := setDone, openIdx := openIdx,
+         cur := optInt j "cur", waiters := waiters, skipped := skipped,
+         settled := optBool j "settled", maxOpen := (optInt j "maxOpen").toNat,
+         inInner := optBool j "inInner", adjParked := (optInt j "adjParked").toNat }
+
+def adjDone (c : Cap) (sets : Nat) : List Nat :=
+  (List.range sets).filter (fun i => !(c.pending.any (·.1 == i)) &&
+    !(c.waiters.any (fun w => w.kind == WKind.adj && w.id == i)))
+
+def snapMatches (listener : Bool) (x : LS) (o : SnapObs) : Bool :=
+  let c := x.s.cap
+  c.cur == o.cur && c.waiters.map (·.n) == o.waiters &&
+  (if listener then
+     [c.opened.length + c.closed.length] == o.granted && sortN c.opened == o.openIdx &&
+     (!c.inAccept.isEmpty) == o.inInner &&
+     (c.waiters.filter (·.kind == WKind.adj)).length == o.adjParked
+   else
+     sortN (c.opened ++ c.closed) == o.granted && adjDone c x.sets == o.setDone)
+
+structure Acc where
+  cands : List LS
+  agree : Bool := true
+  note : String := ""
+  sig : String := ""
+  tags : List String := []
+  capNow : Int
+  prevQuiet : Bool := true
+  setSince : Bool := false       -- a SetMax was issued since the previous snapshot
+  relCount : Nat := 0
+  opIdx : Nat := 0
+  expected : List Json := []
+
+def capJson (c : Cap) : Json :=
+  Json.mkObj [("cur", Json.num c.cur), ("waiters", Json.arr (c.waiters.map (fun w => Json.num w.n)).toArray),
+    ("inAccept", Json.arr (c.inAccept.map (fun (n : Nat) => Json.num n)).toArray),
+    ("open", Json.arr ((sortN c.opened).map (fun (n : Nat) => Json.num n)).toArray),
+    ("closed", Json.arr ((sortN c.closed).map (fun (n : Nat) => Json.num n)).toArray),
+    ("realCap", Json.num c.realCap), ("effCap", Json.num c.effCap)]
+
+def semJudge (listener : Bool) : Judge := liftJudge fun input obs => do
+  match obsPanic obs with
+  | some m => pure { agree := false, spec := false, sig := "panic-or-hang", note := m }
+  | none =>
+  let cap0 := optInt input "cap0"
+  let opsJ ← getArr input "ops"
+  let ops ← opsJ.toList.mapM parseOp
+  let snapsJ ← getArr obs "snaps"
+  let snaps ← snapsJ.toList.mapM (parseSnap listener)
+  let allSkipped := snaps.flatMap (·.skipped)
+  let init : LS := { s := ⟨newCap cap0, if listener then [.acquire 0] else []⟩, nextAcc := if listener then 1 else 0 }
+  let mut acc : Acc := { cands := [init], capNow := cap0 }
+  let mut rest := snaps
+  let mut i : Nat := 0
+  let mut held : Int := 0     -- observed: units held by acquirers
+  for o in ops do
+    let sk := allSkipped.contains i
+    -- racing: asynchronous steps may run before this operation
+    let before := closureL listener 8 acc.cands
+    let after := dedupL (before.filterMap (fun x => applyOp listener x o sk))
+    let isSet := o.op == "set" && !sk
+    acc := { acc with cands := after, capNow := if isSet then o.n else acc.capNow,
+                      setSince := acc.setSince || isSet,
+                      tags := acc.tags ++ [o.op] ++ (if o.race then ["race"] else []) ++ (if sk then ["skipped"] else []) }
+    if after.isEmpty && acc.agree then
+      acc := { acc with agree := false, note := s!"op {i} {o.op}: no model state allows it (skipped={sk})", cands := before }
+    let last := i + 1 == ops.length
+    if !o.race || last then
+      match rest with
+      | [] => acc := { acc with agree := false, note := if acc.note == "" then "missing snapshot" else acc.note }
+      | sn :: more =>
+        rest := more
+        let fin := (closureL listener 8 acc.cands).filter (·.s.async.isEmpty)
+        let ok := fin.filter (fun x => snapMatches listener x sn)
+        acc := { acc with expected := acc.expected ++ [match fin with | x :: _ => capJson x.s.cap | [] => Json.null] }
+        if ok.isEmpty then
+          if acc.agree then
+            acc := { acc with agree := false, note := s!"snapshot after op {i}: observation matches none of {fin.length} model states" }
+          acc := { acc with cands := if fin.isEmpty then acc.cands else fin.take 1 }
+        else
+          -- (bounded: symmetric queue orders of racing acquirers can multiply the candidates)
+          acc := { acc with cands := ok.take 64 }
+        -- the property on the observation
+        let openNow : Int := if listener then sn.openIdx.length else 0
+        let countOps (name : String) : Nat := ((List.range (i + 1)).filter (fun j =>
+                 match ops[j]? with
+                 | some p => p.op == name && !allSkipped.contains j
+                 | none => false)).length
+        let quietNow := if listener then sn.adjParked == 0 else sn.setDone.length == countOps "set"
+        let unitsHeld : Int :=
+          if listener then openNow + (if sn.inInner then 1 else 0)
+          else (sn.granted.length : Int) - (countOps "rel" : Int)
+        held := unitsHeld
+        -- somebody waits for a unit (meaningful when quiet: then every queued waiter is a unit acquirer)
+        let unitWaiting := if listener then (!sn.inInner) else !sn.waiters.isEmpty
+        let backlogObs : Int := (countOps "dial" : Int) - (sn.granted.headD 0 : Int)
+        let mut sig := acc.sig
+        if sig == "" && !sn.settled then sig := "hang:goroutines-not-parked"
+        if sig == "" && sn.cur > M then sig := "semaphore:cur-above-size"
+        if sig == "" && quietNow && unitsHeld > acc.capNow then sig := "cap:more-open-than-cap"
+        if sig == "" && quietNow && sn.cur != M - acc.capNow + unitsHeld then sig := "setmax:not-applied"
+        if sig == "" && listener && quietNow && acc.prevQuiet && !acc.setSince && (sn.maxOpen : Int) > acc.capNow then
+          sig := "cap:accepted-above-cap"
+        if sig == "" && listener && quietNow && backlogObs > 0 && openNow < acc.capNow then
+          sig := "liveness:free-capacity-not-used"
+        if sig == "" && !listener && quietNow && unitWaiting && unitsHeld < acc.capNow then
+          sig := "liveness:free-capacity-not-used"
+        acc := { acc with sig := sig, prevQuiet := quietNow, setSince := false }
+    i := i + 1
+  -- established connections stay usable
+  let mut sig := acc.sig
+  if listener then
+    let alive := (optInt obs "alive")
+    match snaps.getLast? with
+    | some sn => if sig == "" && alive != sn.openIdx.length then sig := "established-connection-dropped"
+    | none => pure ()
+  let shrinkBelow := acc.tags.contains "set"
+  pure { agree := acc.agree, spec := sig == "", sig := sig, note := acc.note, tags := dedup acc.tags,
+         nontrivial := shrinkBelow && (snaps.any (fun s => !s.waiters.isEmpty)),
+         expected := Json.arr acc.expected.toArray }
+
+/-! ## MQTT -/
+
+structure MOp where
+  op : String
+  cid : Nat
+  cids : List Nat
+
+def parseMOp (j : Json) : Except String MOp := do
+  pure { op := ← getStr j "op", cid := (optInt j "cid").toNat, cids := (natList j "cids").toOption.getD [] }
+
+/-- BFS over the interleavings of `early; locked` of several connections; a state carries the
+model and the CONNACK of every connection so far -/
+structure BS where
+  m : Mq
+  todo : List (Nat × Nat × Bool)      -- (conn, cid, early done?)
+  out : List (Nat × Nat)              -- (conn, code)
+deriving DecidableEq
+
+def dedupB (l : List BS) : List BS := l.foldl (fun acc x => if acc.contains x then acc else acc ++ [x]) []
+
+def code : MOut → Nat
+  | .accepted => 0
+  | .refused => 3
+  | .none => 99
+
+def bstep (b : BS) (i : Nat) : Option BS :=
+  match b.todo[i]? with
+  | none => none
+  | some (conn, cid, false) =>
+    match mstep b.m (.early conn cid) with
+    | some (m', .refused) => some { m := m', todo := b.todo.eraseIdx i, out := b.out ++ [(conn, 3)] }
+    | some (m', _) => some { m := m', todo := b.todo.set i (conn, cid, true), out := b.out }
+    | none => none
+  | some (conn, _, true) =>
+    match mstep b.m (.locked conn) with
+    | some (m', o) => some { m := m', todo := b.todo.eraseIdx i, out := b.out ++ [(conn, code o)] }
+    | none => none
+
+def bfs : Nat → List BS → List BS
+  | 0, l => l
+  | fuel + 1, l =>
+    if l.all (·.todo.isEmpty) then l else
+    bfs fuel (dedupB (l.flatMap (fun b =>
+      if b.todo.isEmpty then [b] else (List.range b.todo.length).filterMap (bstep b))))
+
+def mqttJudge : Judge := liftJudge fun input obs => do
+  match obsPanic obs with
+  | some m => pure { agree := false, spec := false, sig := "panic-or-hang", note := m }
+  | none =>
+  let cap := (optInt input "cap").toNat
+  let opsJ ← getArr input "ops"
+  let ops ← opsJ.toList.mapM parseMOp
+  let snapsJ ← getArr obs "snaps"
+  if snapsJ.size != ops.length then
+    return { agree := false, spec := true, note := "judge-bad-input: snaps/ops length" }
+  let mut cands : List Mq := [{ cap := cap, clients := [], passed := [] }]
+  let mut agree := true
+  let mut note := ""
+  let mut sig := ""
+  let mut tags : List String := []
+  let mut i := 0
+  let mut prevClients : List Nat := []
+  let mut atCapTakeover := false
+  for (o, sj) in ops.zip snapsJ.toList do
+    let codes ← intList sj "codes"
+    let clients ← natList sj "clients"
+    let maxSeen := (optInt sj "maxSeen").toNat
+    let sk := optBool sj "skipped"
+    let err := optStr sj "err"
+    tags := tags ++ [o.op]
+    let conns : List Nat := match o.op with
+      | "connect" => [o.cid]
+      | "burst" => o.cids
+      | _ => []
+    -- model
+    let results : List (Mq × List Int) :=
+      match o.op with
+      | "drop" =>
+        cands.map (fun m => match mstep m (.remove o.cid) with
+          | some (m', _) => (m', [])
+          | none => (m, []))
+      | "connect" | "burst" =>
+        cands.flatMap (fun m =>
+          let start : BS := { m := m, todo := (List.range conns.length).zip conns |>.map (fun p => (p.1, p.2, false)), out := [] }
+          (bfs 16 [start]).map (fun b =>
+            (b.m, (List.range conns.length).map (fun c => match b.out.find? (·.1 == c) with
+              | some (_, cd) => (cd : Int) | none => -1))))
+      | _ => cands.map (fun m => (m, []))
+    let ok := results.filter (fun r => r.2 == codes && sortN r.1.clients == clients)
+    let dropSkipOk := o.op != "drop" || (sk == !(prevClients.contains o.cid))
+    if (ok.isEmpty || !dropSkipOk || err != "") && agree then
+      agree := false
+      note := s!"op {i} {o.op}: codes {codes} clients {clients} err='{err}' not among {results.length} model outcomes"
+    cands := if ok.isEmpty then (results.map (·.1)).take 1 else (ok.map (·.1))
+    cands := cands.foldl (fun acc x => if acc.contains x then acc else acc ++ [x]) []
+    -- property
+    if sig == "" && cap > 0 && maxSeen > cap then sig := "mqtt:more-clients-than-cap"
+    if sig == "" && cap > 0 && clients.length > cap then sig := "mqtt:more-clients-than-cap"
+    if sig == "" && codes.any (fun c => c != 0 && c != 3) then sig := "mqtt:unexpected-connack"
+    if sig == "" && o.op == "connect" && cap > 0 && prevClients.length ≥ cap && !prevClients.contains o.cid
+        && codes != [3] then sig := "mqtt:served-beyond-cap"
+    if sig == "" && o.op == "connect" && (cap == 0 || prevClients.length < cap) && codes != [0] then
+      sig := "mqtt:refused-below-cap"
+    if sig == "" && (o.op == "connect" || o.op == "burst") then
+      -- nobody who was connected and did not reconnect is dropped by a connect
+      if !(prevClients.all (clients.contains ·)) then sig := "mqtt:established-client-dropped"
+    if sig == "" && err != "" then sig := "harness-error:" ++ err
+    if cap > 0 && prevClients.length ≥ cap && conns.any (prevClients.contains ·) then atCapTakeover := true
+    if o.op == "burst" then tags := tags ++ [s!"burst{conns.length}"]
+    prevClients := clients
+    i := i + 1
+  pure { agree := agree, spec := sig == "", sig := sig, note := note,
+         tags := dedup (tags ++ (if atCapTakeover then ["takeover-at-cap"] else []) ++ [s!"cap{cap}"]),
+         nontrivial := tags.contains "burst" }
+
+def judges : List (String × Judge) :=
+  [("sem", semJudge false), ("listener", semJudge true), ("mqtt", mqttJudge)]
 
 end Driver.C17
 
